@@ -190,6 +190,10 @@ type env struct {
 	bufReads  int      // BufferBatchGet requests seen
 	snapReads []string // plain Get / BatchGet requests at the transaction's start ts (a buffer read that lost its tier)
 
+	// a split the store performs when the first ResolveLock for the region holding this key arrives (mock cluster
+	// only: the range task has been cut on the old layout and the client's cache is stale)
+	armedSplit []byte
+
 	// commit point (txn world): what happens to the successive Commit requests for the primary (x: executed, answer
 	// lost; n: lost before execution; k: definite key error; o: executed and answered; the last entry repeats)
 	commitScript     string
@@ -605,6 +609,19 @@ func (h *hijack) SendRequest(ctx context.Context, addr string, req *tikvrpc.Requ
 		return &tikvrpc.Response{Resp: &kvrpcpb.BroadcastTxnStatusResponse{}}, nil
 	case tikvrpc.CmdResolveLock:
 		rl := req.ResolveLock()
+		e.mu.Lock()
+		if k := e.armedSplit; k != nil {
+			if meta, _ := e.cluster.GetRegion(req.Context.GetRegionId()); meta != nil {
+				mk := mocktikv.NewMvccKey(k)
+				in := bytes.Compare(meta.StartKey, mk) < 0 && (len(meta.EndKey) == 0 || bytes.Compare(mk, meta.EndKey) < 0)
+				if in {
+					e.armedSplit = nil
+					ids := e.cluster.AllocIDs(1 + len(meta.Peers))
+					e.cluster.Split(meta.Id, ids[0], k, ids[1:], ids[1])
+				}
+			}
+		}
+		e.mu.Unlock()
 		resp, err := h.Client.SendRequest(ctx, addr, req, timeout)
 		if err == nil && resp != nil {
 			if re, _ := resp.GetRegionError(); re == nil {
@@ -1551,6 +1568,20 @@ func exec1(w []string) string {
 		ids := e.cluster.AllocIDs(1 + len(meta.Peers))
 		e.cluster.Split(meta.Id, ids[0], k, ids[1:], ids[1])
 		return "ok"
+	case "splitonresolve":
+		if len(w) != 2 {
+			return "bad-op"
+		}
+		k, ok := vx.UnHex(w[1])
+		if !ok || len(k) == 0 {
+			return "bad-op"
+		}
+		if e.mode == "txn" {
+			e.mu.Lock()
+			e.armedSplit = k
+			e.mu.Unlock()
+		}
+		return "ok"
 	case "buferr":
 		if len(w) != 2 || (w[1] != "notleader" && w[1] != "busy") {
 			return "bad-op"
@@ -1868,6 +1899,11 @@ func (g *gen) txnRangeCase(n int) {
 		}
 		g.do("chk-range")
 	}
+	if g.r.Chance(60) {
+		// a region holding flushed keys shrinks after the range task was cut: a rung above the smallest flushed key
+		lo := sorted[0]
+		g.do("splitonresolve " + vx.Hex(ladder[lo+1+g.r.Intn(len(ladder)-lo-1)]))
+	}
 	switch g.r.Intn(3) {
 	case 0:
 		g.do("commit 0 ok 0 ok 0 " + g.commitScript())
@@ -1959,6 +1995,9 @@ func (g *gen) txnTierCase(n int) {
 			g.do("chk-read " + g.key())
 		}
 		g.do("chk-tier")
+	}
+	if g.r.Chance(40) {
+		g.do("splitonresolve " + vx.Hex(ladder[1+g.r.Intn(len(ladder)-1)]))
 	}
 	if g.r.Bool() {
 		g.do("commit 0 ok 0 ok 0 o")
